@@ -63,7 +63,7 @@ def gen_package(rng, nm=None, nap=None, nw=None, nfilt=None, positive=True):
                             normalize=rng.random() < 0.7, wunit=rng.choice(['micron', 'micron', 'mm', 'nm', 'Angstrom'])))     # wunit: the unit the central wavelength is declared in
     # flux_unit: the unit the fluxes are stored in (the numbers are in that unit; the model works in mJy); C07 also draws Jy
     return dict(flux_unit='mJy', names=names, fnames=fnames, par_order=par_order, par1={n: rng.dyadic(0, 100, 10) for n in names},
-                nu=nus, aps=aps, seds=seds, filters=filters, cube_order=rng.choice(['incr', 'decr']))
+                nu=nus, aps=aps, seds=seds, filters=filters, cube_order=rng.choice(['incr', 'decr']), cube_columns=rng.choice(['standard', 'standard', 'reordered']))
 
 
 def own_grids(rng, pkg):
@@ -195,6 +195,18 @@ def reorder_columns(path):
         out.writeto(path, overwrite=True)
 
 
+def reorder_cube_columns(path):
+    """the same for a cube file: SPECTRAL_INFO rewritten with FREQUENCY before WAVELENGTH (both correctly named, with their units)"""
+    import numpy as np
+    from astropy.io import fits
+    with fits.open(path, memmap=False) as h:
+        w = h['SPECTRAL_INFO']
+        cols = [fits.Column(name=w.columns[n].name, format=w.columns[n].format, unit=w.columns[n].unit, array=np.array(w.data[n])) for n in ('FREQUENCY', 'WAVELENGTH')]
+        new = fits.BinTableHDU.from_columns(cols, name='SPECTRAL_INFO')
+        out = fits.HDUList([x.copy() if x.name != 'SPECTRAL_INFO' else new for x in h])
+        out.writeto(path, overwrite=True)
+
+
 def write_v1(d, pkg, logd_step=0.02):
     os.mkdir(os.path.join(d, 'seds'))
     for n in pkg['names']:
@@ -230,6 +242,8 @@ def make_cube(pkg, with_unc=True):
 
 def write_v2(d, pkg, logd_step=0.02):
     make_cube(pkg).write(os.path.join(d, 'flux.fits'))
+    if pkg.get('cube_columns') == 'reordered':
+        reorder_cube_columns(os.path.join(d, 'flux.fits'))
     write_conf(d, pkg['aps'] is not None, version=2, logd_step=logd_step)
     write_params(d, pkg)
 
